@@ -139,6 +139,29 @@ def r2b_state_machine_hooks(chk: Check) -> None:
             if not cexs:
                 chk.undecided("C11.R2b", fn, f"{meth} emits exactly {sym}", f"symbols {sorted(frag.symbols)}", fn.loc())
         # teardown must also call super().teardown(), setup must not skip the check context
+    # close-before-cleanup: in teardown nothing fallible may run before the closing event is on the queue, otherwise a
+    # fault in clean-up (metrics maximisation, user teardown) leaves the announced scenario unclosed in an
+    # uninterrupted run
+    TOTAL_BEFORE_CLOSE = {"current_build_context": "Hypothesis accessor, total while a test is running", "monotonic": "clock read"}
+    td = loop.module.functions.get(f"{prefix}._InstrumentedStateMachine.teardown")
+    if td is not None:
+        g = cfg_of(td)
+        emit_nodes = [n.id for n in g.live() if n.kind == "stmt" and n.ast is not None and any(last_attr(c) == "put" and c.args and "ScenarioFinished" in unparse(c.args[0], 400) for c in calls(n.ast))]
+        if emit_nodes:
+            for n in g.live():
+                if n.kind not in ("stmt", "test", "for", "with") or n.ast is None or n.id in emit_nodes:
+                    continue
+                root = n.ast.iter if n.kind == "for" else n.ast  # type: ignore[attr-defined]
+                cs = [c for c in walk_local(root) if isinstance(c, ast.Call) and last_attr(c) not in TOTAL_BEFORE_CLOSE]
+                if not cs:
+                    continue
+                # can this node execute before the emission?  (emission not yet passed on some path entry -> n)
+                before = n.id in g.reachable_from([g.entry], avoid=emit_nodes)
+                if before:
+                    chk.violation("C11.R2b", td, f"teardown: {norm(cs[0])[:70]} before ScenarioFinished",
+                                  "clean-up runs before the closing event is emitted: if it raises, ScenarioStarted stays without ScenarioFinished although the run was not interrupted",
+                                  td.loc(cs[0]))
+            chk.ok("C11.R2b", td, "teardown emits ScenarioFinished before any fallible clean-up", "", td.loc())
     # the step() override re-raises everything it catches
     step = loop.module.functions.get(f"{prefix}._InstrumentedStateMachine.step")
     if step is not None:
